@@ -1,4 +1,5 @@
 import Fs.Proofs.Split
+import Fs.Model.Vars
 /-!
 # C16 — execute_string equals one-by-one execution; nop_regexes only no-op matches   (partial)
 
@@ -59,6 +60,14 @@ example : stmtCount "/* a */ update t set v = 1 /* b */; -- x\n ; /* only */ ; s
 /-- a byte order mark, zero-width and other unusual code points inside a literal are data like any other character -/
 example : lex (sfLit ['a', Char.ofNat 0xFEFF, 'b', Char.ofNat 0x200B, Char.ofNat 0x2028]) =
     some [.str ['a', Char.ofNat 0xFEFF, 'b', Char.ofNat 0x200B, Char.ofNat 0x2028]] := by decide
+
+/-- known finding C16/dollar-string-rerender-exposes-reference: `execute_string` re-renders a `$$…$$` string as `'…'`
+    BEFORE the statement passes the variable phase.  In `$$$usd$$` no `$` is a reference (each has a `$` next to it), in
+    the re-rendered `'$usd'` there is one: through `execute_string` the value becomes `'5'`, executed on its own it stays `$usd`. -/
+theorem finding_C16_dollar_string_rerender :
+    Fs.Vars.Impl.inline [("USD".toList, "5".toList)] "select $$$usd$$".toList = .ok "select $$$usd$$".toList ∧
+    Fs.Vars.Impl.inline [("USD".toList, "5".toList)] ("select ".toList ++ sfLit "$usd".toList) = .ok "select '5'".toList := by
+  decide
 
 /-! ## splitting -/
 
